@@ -323,6 +323,18 @@ def explore(ctx, art):
     lv += [with_level(l, "opt") for l, _ in last_copy_lines(acks=(1000,))]
     lv += [with_level(l, "dtlssrv") for l, _ in last_copy_lines(acks=(5 * 10**9,))]
     lines += lv
+    # the transport refuses the first transmission of a request (the call fails at once): nothing of the exchange may stay
+    # behind - no copy at a later housekeeping pass, no NSTART slot (a later request still goes out and succeeds)
+    for a, m, n in ((1000, 4, 1), (2 * 10**9, 2, 1), (1000, 1, 2)):
+        for lvl in ("hand", "opt"):
+            for kind in ("g", "p40"):
+                steps = ["cfg %d %d %d %s" % (a, m, n, lvl), "sendf 0 - %s" % kind]
+                for k in range(m + 2):
+                    steps += ["sleep %d" % (a + 1), "tick 0"]
+                steps += ["send 1 - g", "pig 1 7", "sleep %d" % (a + 1), "tick 0"]
+                lines.append(" | ".join(steps))
+                lines.append(" | ".join(["cfg %d %d %d %s" % (a, m, n, lvl), "send 2 - g", "ack 2", "sendf 0 %d %s" % (50 * a, kind), "sleep %d" % (a + 1),
+                                         "tick 0", "resp 2 con 5", "sleep %d" % (2 * a), "tick 0", "send 1 - g", "sleep %d" % (a + 1), "tick 0", "pig 1 9"]))
     nfixed = len(lines)
     classes = {}
     for k in range(200000 if thorough else 20000):
@@ -343,7 +355,7 @@ def explore(ctx, art):
         if o.startswith("panic") or "bad-op" in o:
             ctx.violations.append(common.Violation("no-crash", "C06:crash:" + l, "%s -> %s" % (l, o), {"input": [l], "observed": o}))
             continue
-        if model is not None and model[i] != o:
+        if model is not None and model[i] != "n/a" and model[i] != o:
             nbroken += 1
             if nbroken <= 10:
                 ctx.broken.append(("correspondence", "C06 model vs implementation", "%s: impl `%s` model `%s`" % (l, o, model[i])))
